@@ -3,7 +3,7 @@
    uni (Unicode digit/space map of int()) are universally quantified oracles. *)
 From Coq Require Import List NArith ZArith Bool.
 Import ListNotations.
-Require Import Verif.Lib.Wire Verif.Lib.Text Verif.Lib.Utf8 Verif.Lib.C09Base Verif.Gen.Facts_C09 Verif.Model.C09 Verif.Proofs.C09 Verif.Proofs.C09_rt Verif.Proofs.C09_more.
+Require Import Verif.Lib.Wire Verif.Lib.Text Verif.Lib.Utf8 Verif.Lib.C09Base Verif.Gen.Facts_C09 Verif.Model.C09 Verif.Proofs.C09 Verif.Proofs.C09_rt Verif.Proofs.C09_more Verif.Proofs.C09_gen.
 
 (* "no cookie at all is accepted unless its digest field is exactly the keyed digest of its
    other fields": for EVERY cookie text, configuration, address and clock *)
@@ -165,3 +165,94 @@ Theorem C09_oracle_complete_identify : forall H H' dsz uni c r,
   identify_pre H dsz uni c r = identify_pre H' dsz uni c r.
 Proof. exact identify_pre_agree. Qed.
 Print Assumptions C09_oracle_complete_identify.
+
+(* ======================================================================================================
+   The program REGENERATED from src/pyramid/authentication.py on this run (Gen/Facts_C09.v, written by
+   harness/c09/translate.py) is the reference model, function by function, for all inputs. *)
+Theorem C09_generated_encode_ip_timestamp_is_model : forall ip ts,
+  gen_encode_ip_timestamp ip ts = ip4_parts ip ++ ts_bytes ts.
+Proof. exact gen_encode_ip_timestamp_is_model. Qed.
+Print Assumptions C09_generated_encode_ip_timestamp_is_model.
+
+Theorem C09_generated_calculate_digest_is_model : forall H ip ts sec u tk ud alg,
+  gen_calculate_digest H ip ts sec u tk ud alg = calculate_digest H alg ip ts sec u tk ud.
+Proof. exact gen_calculate_digest_is_model. Qed.
+Print Assumptions C09_generated_calculate_digest_is_model.
+
+Theorem C09_generated_cookie_value_is_model : forall H alg ip t sec u toks ud,
+  gen_ticket_cookie_value H alg ip t sec u toks ud = cookie_value H alg ip t sec u toks ud.
+Proof. exact gen_cookie_value_is_model. Qed.
+Print Assumptions C09_generated_cookie_value_is_model.
+
+Theorem C09_generated_parse_ticket_is_model : forall H dsz uni sec ticket ip alg,
+  gen_parse_ticket H dsz uni sec ticket ip alg = parse_ticket H dsz uni sec ticket ip alg.
+Proof. exact gen_parse_ticket_is_model. Qed.
+Print Assumptions C09_generated_parse_ticket_is_model.
+
+Theorem C09_generated_get_cookies_is_model : forall c r value ma,
+  gen_get_cookies c r value ma = get_cookies c r value ma.
+Proof. exact gen_get_cookies_is_model. Qed.
+Print Assumptions C09_generated_get_cookies_is_model.
+
+Theorem C09_generated_remember_is_model : forall H c r st u ma toks,
+  gen_remember H c r st u ma toks = remember_result st (remember H c r u ma toks).
+Proof. exact gen_remember_is_model. Qed.
+Print Assumptions C09_generated_remember_is_model.
+
+Theorem C09_generated_identify_is_model : forall H dsz uni c r st,
+  gen_identify H dsz uni c r st = identify H dsz uni c r st.
+Proof. exact gen_identify_is_model. Qed.
+Print Assumptions C09_generated_identify_is_model.
+
+Theorem C09_generated_run_is_model : forall H dsz uni c r ops st,
+  gen_run_ops H dsz uni c r st ops = run_ops H dsz uni c r st ops.
+Proof. exact gen_run_ops_is_model. Qed.
+Print Assumptions C09_generated_run_is_model.
+
+(* the property theorems, literally about the regenerated program *)
+Theorem C09_accept_implies_digest_generated : forall H dsz uni c r st ck0 ts u toks ud,
+  (forall a x, forallb valid_scalar (H a x) = true) -> forallb valid_scalar ck0 = true ->
+  cookie r = Some ck0 ->
+  snd (gen_identify H dsz uni c r st) = ISome ts u toks ud ->
+  digest_ok H dsz uni c r ck0 = true.
+Proof. exact gen_accept_implies_digest. Qed.
+Print Assumptions C09_accept_implies_digest_generated.
+
+Theorem C09_identify_total_generated : forall H dsz uni c r st ck0,
+  (forall a x, forallb valid_scalar (H a x) = true) -> forallb valid_scalar ck0 = true ->
+  cookie r = Some ck0 -> digest_ok H dsz uni c r ck0 = false ->
+  gen_identify H dsz uni c r st = (st, INone).
+Proof. exact gen_identify_total. Qed.
+Print Assumptions C09_identify_total_generated.
+
+Theorem C09_reissue_once_generated : forall H dsz uni c r ops,
+  response_cookies (fst (gen_run_ops H dsz uni c r st0 ops)) = spec_response H dsz uni c r ops.
+Proof. exact gen_reissue_once. Qed.
+Print Assumptions C09_reissue_once_generated.
+
+Theorem C09_ticket_roundtrip_generated : forall H dsz uni alg ip t sec enc toks ud,
+  (forall a x, length (H a x) = (dsz a * digest_mult)%nat) ->
+  (forall a x, exists c r, H a x = c :: r /\ c <> strip_ch) ->
+  (t < 4294967296)%N -> is_ascii enc = true ->
+  Forall (fun tk => valid_token tk = true) toks ->
+  ud <> [] -> ~ In bang ud -> last ud 0%N <> strip_ch ->
+  gen_parse_ticket H dsz uni sec (gen_ticket_cookie_value H alg ip t sec enc toks ud) ip alg
+  = POk (Z.of_N t) enc (match toks with [] => [[]] | _ => toks end) ud.
+Proof. exact gen_ticket_roundtrip. Qed.
+Print Assumptions C09_ticket_roundtrip_generated.
+
+Theorem C09_issued_ticket_never_raises_generated : forall H dsz uni c r r' u ma toks st1 st1' hs k v st,
+  (forall a x, length (H a x) = (dsz a * digest_mult)%nat) ->
+  (forall a x, exists c r, H a x = c :: r /\ c <> strip_ch) ->
+  (0 <= now r < 4294967296)%Z -> wf_uval u ->
+  gen_remember H c r st1 u ma toks = (st1', Some hs) -> In k hs -> ck_value k = Some v ->
+  cookie r' = Some v -> eff_ip c r' = eff_ip c r ->
+  snd (gen_identify H dsz uni c r' st) <> IRaise.
+Proof. exact gen_issued_ticket_never_raises. Qed.
+Print Assumptions C09_issued_ticket_never_raises_generated.
+
+Theorem C09_cookie_attributes_generated : forall H c r st u ma toks st' hs k,
+  gen_remember H c r st u ma toks = (st', Some hs) -> In k hs ->
+  attrs_ok c r ma k = true /\ exists v, ck_value k = Some v.
+Proof. exact gen_cookie_attributes. Qed.
+Print Assumptions C09_cookie_attributes_generated.
